@@ -19,8 +19,10 @@ import pipeline
 import pilio
 
 LEVEL = "proof"
-LEVEL_NOTE = ("PARTIAL: the end-to-end theorem is composed from the per-stage theorems (C01/C02 compile, C04 arrays sound, "
-              "C17 finish guard, .mfe read/apply model); the designer itself is replaced by 'any assignment satisfying the arrays'; "
+LEVEL_NOTE = ("the end-to-end theorem (PepperProps/C06.lean: end_to_end, end_to_end_component, end_to_end_struct) composes C01/C02 compile, "
+              "C04/C15 arrays, process_results / output (.mfe records) and finish on the saved tree into one Lean statement; the designer itself is "
+              "replaced by 'any assignment satisfying the arrays' (ArraysGood); hypothesis MfeNamesDistinct (F13); PARTIAL at the text level of the "
+              ".mfe file (records -> lines: the GC float is an opaque token, readability of the records is a hypothesis); "
               "NUPACK (DNAfold) is absent, so .mfe files are written with findmfe=False")
 
 
